@@ -206,9 +206,9 @@ row(props=["C12"], func=API + "(JavaAPIListener).EnterAnnotation", params=["s", 
 # ------------------------------------------------------------------ C01 / C02 / C17 extras
 RELC = 'call("path/filepath.Rel", call("deref", free_codeDir), path)'
 RELP = 'ite(call("extract1", %s) != nil, path, call("extract0", %s))' % (RELC, RELC)
-row(props=["C01"], func="pkg/adapter/cocafile.GetFilesWithFilter$1", params=["path", "fi", "err"], kind="returns", expr="nil",
+row(props=["C01", "C06", "C09", "C10", "C11", "C12", "C17"], func="pkg/adapter/cocafile.GetFilesWithFilter$1", params=["path", "fi", "err"], kind="returns", expr="nil",
     what="the directory walk is never cut short: the callback returns nil for every entry")
-row(props=["C01", "C09", "C17"], func="pkg/adapter/cocafile.GetFilesWithFilter$1", params=["path", "fi", "err"], kind="emits", target="free:files", tag={}, total=1,
+row(props=["C01", "C06", "C09", "C10", "C11", "C12", "C17"], func="pkg/adapter/cocafile.GetFilesWithFilter$1", params=["path", "fi", "err"], kind="emits", target="free:files", tag={}, total=1,
     when='!(call("deref", free_gitIgnore) != nil && call("github.com/sabhiram/go-gitignore.(GitIgnore).MatchesPath", call("deref", free_gitIgnore), ' + RELP + ')) && !exists(call("strings.Split", toSlash(' + RELP + '), "/"), seg, seg == "testData") && fi != nil && !IsDir(fi) && call("dyn", call("deref", free_filter), path)',
     fields={"<elem>": "path"}, what="a file (never a directory) is selected ⇔ not below a fixture directory named testData (a path segment of the relative path, not a substring), not ignored (the ignore file's patterns apply to the path relative to the analysed directory), not under testData, accepted by the filter")
 TT = "pkg/infrastructure/ast/ast_java."
